@@ -19,7 +19,7 @@ ASSUMPTIONS = [
     "set-operation operands are bracketed or not according to the dialect class (MySQL does not bracket)",
 ]
 
-NPOS = 9
+NPOS = 10
 
 
 def pin(v, n):
@@ -29,19 +29,21 @@ def pin(v, n):
     return n - 1
 
 
-def make_inner(d, flags, leaf):
-    """Inner query built with the GENERIC classes (the outer dialect must govern it)."""
+def make_inner(d, flags, leaf, native=False):
+    """Inner query built with the GENERIC classes (the outer dialect must govern it), or - native - with the outer
+    dialect's own classes."""
     a_sel, a_where, a_group, a_having, a_order, nested, joined, paged = flags
     t, u = Table("t"), Table("u")
     k = t.k.as_("kk") if a_sel else t.k
-    q = QS[0].from_(t)
+    QI = QS[d] if native else QS[0]
+    q = QI.from_(t)
     if joined:
         q = q.join(u).on((t.k == u.k).as_("onx") if a_where else (t.k == u.k))
     q = q.select(k, fn.Max(t.v).as_("mx") if a_sel else fn.Max(t.v))
     w = t.b.as_("bx") if a_where else t.b
     q = q.where(w == leaf)
     if nested:
-        q = q.where(t.c.isin(QS[0].from_(u).select(u.c.as_("cc") if a_sel else u.c).where(u.w > 3)))
+        q = q.where(t.c.isin(QI.from_(u).select(u.c.as_("cc") if a_sel else u.c).where(u.w > 3)))
     q = q.groupby(k if a_group else t.k)
     if a_having:
         q = q.having((fn.Count(t.v).as_("cn") > 1))
@@ -79,6 +81,8 @@ def embed(pos, d, inner):
         return Q.from_(o).join(u2).on((o.k == u2.k) & u2.k.isin(inner)).select(o.k)
     if pos == 8:  # INSERT ... VALUES ((subquery))
         return Q.into(o).insert(1, inner)
+    if pos == 9:  # IN operand inside a bracketed mixed AND/OR group of the outer WHERE
+        return Q.from_(o).select(o.k).where((o.k.isin(inner) | (o.c == o.e)) & (o.d == o.f))
     raise AssertionError(pos)
 
 
@@ -101,7 +105,7 @@ def count_ph(text, d):
     return text.count("?")
 
 
-def check(name, pos, d, par, flags, leaf, args):
+def check(name, pos, d, par, flags, leaf, args, native=False):
     inner_p = probe_inner()
     if par:
         ctx_p = dctx(d, True)
@@ -114,16 +118,25 @@ def check(name, pos, d, par, flags, leaf, args):
         note("why", "probe layout: %d parts" % len(parts))
         return SKIP
     prefix, suffix = parts
-    inner = make_inner(d, flags, leaf)
+    inner = make_inner(d, flags, leaf, native)
     if par:
         pre = Parameterizer()
         for i in range(count_ph(prefix, d)):
             pre.create_param("dummy")
-        standalone = make_inner(d, flags, leaf).get_sql(top_ctx(d, pre))
+        standalone = make_inner(d, flags, leaf, native).get_sql(top_ctx(d, pre))
         out = embed(pos, d, inner).get_sql(dctx(d, True))
     else:
-        standalone = make_inner(d, flags, leaf).get_sql(top_ctx(d))
-        out = embed(pos, d, inner).get_sql(dctx(d))
+        standalone = make_inner(d, flags, leaf, native).get_sql(top_ctx(d))
+        outer = embed(pos, d, inner)
+        out = outer.get_sql(dctx(d))
+        if pos == 6:
+            # a set operation is usually rendered with str(), which starts from the default context
+            via_str = str(outer)
+            if not (via_str == out):
+                note("standalone", standalone)
+                note("embedded", via_str)
+                note("expected", out)
+                return verdict(False, name, **args)
     note("standalone", standalone)
     note("embedded", out)
     exp = prefix + standalone + suffix
@@ -136,17 +149,21 @@ def check(name, pos, d, par, flags, leaf, args):
     cubes={"pos": range(NPOS), "d": range(ND), "par": [0, 1]},
     bounds={"quick": {}, "thorough": {}},
     timeout={"quick": 200, "thorough": 600},
-    witness=[dict(pos=2, d=2, par=1, f0=True, f1=True, f2=True, f3=False, f4=True, f5=True, f6=False, f7=True),
-             dict(pos=5, d=1, par=0, f0=False, f1=False, f2=False, f3=False, f4=False, f5=False, f6=True, f7=False)],
+    witness=[dict(pos=2, d=2, par=1, nat=False, f0=True, f1=True, f2=True, f3=False, f4=True, f5=True, f6=False, f7=True),
+             dict(pos=5, d=1, par=0, nat=False, f0=False, f1=False, f2=False, f3=False, f4=False, f5=False, f6=True, f7=False),
+             dict(pos=6, d=5, par=0, nat=True, f0=True, f1=False, f2=True, f3=False, f4=False, f5=False, f6=False, f7=False),
+             dict(pos=9, d=0, par=0, nat=False, f0=False, f1=False, f2=False, f3=False, f4=False, f5=True, f6=False, f7=False)],
     doc="inner query from 8 flags (aliased select / where / group by / having / order by terms, nested subquery, join, "
-        "limit) x 9 embedding positions x 6 dialect classes x inline/parameterised",
+        "limit; built with the generic or with the outer dialect's own classes) x 10 embedding positions x 6 dialect classes x "
+        "inline/parameterised; set operations also through str()",
 )
-def c10_embed(pos: int, d: int, par: int, f0: bool, f1: bool, f2: bool, f3: bool, f4: bool, f5: bool, f6: bool, f7: bool) -> int:
+def c10_embed(pos: int, d: int, par: int, nat: bool, f0: bool, f1: bool, f2: bool, f3: bool, f4: bool, f5: bool, f6: bool, f7: bool) -> int:
     flags = (bool(f0), bool(f1), bool(f2), bool(f3), bool(f4), bool(f5), bool(f6), bool(f7))
-    args = dict(pos=pos, d=d, par=par, f0=flags[0], f1=flags[1], f2=flags[2], f3=flags[3], f4=flags[4], f5=flags[5],
+    nat = bool(nat)
+    args = dict(pos=pos, d=d, par=par, nat=nat, f0=flags[0], f1=flags[1], f2=flags[2], f3=flags[3], f4=flags[4], f5=flags[5],
                 f6=flags[6], f7=flags[7])
     with _NoTracing():
-        return check("c10_embed", pos, d, par, flags, "lf", args)
+        return check("c10_embed", pos, d, par, flags, "lf", args, native=nat)
 
 
 @harness(
